@@ -113,6 +113,22 @@ def judge(c, d, out, rc, err):
                     "stop after step %d, %s state, fresh instance, load, continue: %s %s is %r, in the run that went on %r"
                     % (it0 + K, fmt, "at step %d" % (it0 + t) if t is not None else "in the final state", obs, y, x),
                     K, fmt, t=t, obs=obs)
+            # analysis windows written to files (running average): the lines of the steps after the stop step
+            if c.get("prefix_per_run") and not dd:
+                la = R.runave_lines("%sP_A_%s.v0.runave.traj" % (pre, lab))
+                lb = R.runave_lines("%sP_B_%s.v0.runave.traj" % (pre, lab))
+                if la is not None:
+                    want = {t: v for t, v in la.items() if t > it0 + K}
+                    got = {t: v for t, v in (lb or {}).items() if t > it0 + K}
+                    missing = sorted(set(want) - set(got))
+                    wrong = [t for t in sorted(set(want) & set(got))
+                             if not (R.close(want[t][0], got[t][0]) and R.close(want[t][1], got[t][1], 1e-7))]
+                    if missing or wrong:
+                        t0 = (missing + wrong)[0]
+                        add("resume", "resume:%s:runave-file" % fam,
+                            "stop after step %d, %s state, resume: running-average file: line of step %d is %r, in the run "
+                            "that went on %r (%d lines missing, %d different)" % (it0 + K, fmt, t0, got.get(t0), want[t0],
+                                                                                  len(missing), len(wrong)), K, fmt, obs="runave")
             # saving immediately after loading reproduces the loaded state
             f1 = "%sa_%s.colvars.state" % (pre, lab)
             f2 = "%sb_%s.colvars.state" % (pre, lab)
